@@ -19,15 +19,16 @@ import (
 // ---------------------------------------------------------------- C04 / C05: small client programs on one Queue under controlled schedules
 
 type qprog struct {
-	Name      string  `json:"name,omitempty"`
-	Cap       uint    `json:"cap"`
-	Producers [][]int `json:"producers"`            // values added by each producer (all distinct)
-	Consumers []int   `json:"consumers"`            // RemoveHead calls per consumer; -1 = until ok=false
-	Closer    bool    `json:"closer,omitempty"`     // the producer that finishes last closes the queue
-	Observer  int     `json:"observer,omitempty"`   // number of observer calls (GetSize, IsEmpty, AsArray, GetIterator in turn)
-	RemoveAll int     `json:"remove_all,omitempty"` // number of RemoveAll calls by an extra thread
-	Elem      string  `json:"elem,omitempty"`       // element type of the queue: int (default), any, anynil, string -- see queueCodec
-	Iterate   bool    `json:"iterate,omitempty"`    // every observer call obtains an iterator and walks it
+	Name       string  `json:"name,omitempty"`
+	Cap        uint    `json:"cap"`
+	Producers  [][]int `json:"producers"`              // values added by each producer (all distinct)
+	Consumers  []int   `json:"consumers"`              // RemoveHead calls per consumer; -1 = until ok=false
+	Closer     bool    `json:"closer,omitempty"`       // the producer that finishes last closes the queue
+	Observer   int     `json:"observer,omitempty"`     // number of observer calls (GetSize, IsEmpty, AsArray, GetIterator in turn)
+	RemoveAll  int     `json:"remove_all,omitempty"`   // number of RemoveAll calls by an extra thread
+	RemoveAll2 int     `json:"remove_all_2,omitempty"` // number of RemoveAll calls by a second extra thread
+	Elem       string  `json:"elem,omitempty"`         // element type of the queue: int (default), any, anynil, string -- see queueCodec
+	Iterate    bool    `json:"iterate,omitempty"`      // every observer call obtains an iterator and walks it
 }
 
 // The programs are written over the values 1, 2, 3, ...; a codec turns them into the queue's elements.
@@ -190,6 +191,13 @@ func runProgramE[E any](p qprog, src core.Source, cd lib.Codec[E]) *qrun {
 		s.Go("R", func() {
 			for k := 0; k < p.RemoveAll; k++ {
 				r.call("R", "RemoveAll", 0, func(e *qevent) { q.RemoveAll() })
+			}
+		})
+	}
+	if p.RemoveAll2 > 0 {
+		s.Go("S", func() {
+			for k := 0; k < p.RemoveAll2; k++ {
+				r.call("S", "RemoveAll", 0, func(e *qevent) { q.RemoveAll() })
 			}
 		})
 	}
@@ -712,6 +720,9 @@ var fixedPrograms = []qprog{
 	{Name: "1p1v-1c-cap1-removeall", Cap: 1, Producers: [][]int{{1}}, Consumers: []int{-1}, Closer: true, RemoveAll: 1},
 	{Name: "1p2v-1c1-cap1-removeall", Cap: 1, Producers: [][]int{{1, 2}}, Consumers: []int{1}, RemoveAll: 1},
 	{Name: "1p2v-0c-cap2-removeall-observer", Cap: 2, Producers: [][]int{{1, 2}}, Consumers: []int{}, RemoveAll: 1, Observer: 2},
+	// two callers of RemoveAll at once: each of them discards what was there when it was called
+	{Name: "1p2v-1c1-cap2-two-removeall", Cap: 2, Producers: [][]int{{1, 2}}, Consumers: []int{1}, RemoveAll: 1, RemoveAll2: 1},
+	{Name: "1p3v-1c1-cap3-two-removeall", Cap: 3, Producers: [][]int{{1, 2, 3}}, Consumers: []int{1}, RemoveAll: 1, RemoveAll2: 1},
 }
 
 // the small fixed programs again, on queues of other element types (enumerated as a sub-check of their own)
@@ -763,6 +774,9 @@ func genRandomProgram(s core.Source) qprog {
 	}
 	if s.Choose(4, "removeall") == 0 {
 		p.RemoveAll = 1
+		if s.Choose(2, "removeall2") == 0 {
+			p.RemoveAll2 = 1
+		}
 	}
 	p.Elem = core.Pick(s, queueElems, "elem")
 	return p
